@@ -87,6 +87,25 @@ def _directed():
     return res
 
 
+def _retry(fn, *a, **kw):
+    """a TLC/JVM start can fail transiently on the shared machine (or be killed from outside): retry once"""
+    try:
+        return fn(*a, **kw)
+    except core.Inconclusive as e:
+        core.log('C03: retrying after: %s' % str(e)[:200])
+        time.sleep(3)
+        return fn(*a, **kw)
+
+
+def _check(module, cfg, **kw):
+    res = core.tlc_check(module, cfg, **kw)
+    if not res['ok'] and not res['violated']:
+        core.log('C03: design check %s did not complete (rc=%s), retrying once' % (cfg, res.get('rc')))
+        time.sleep(3)
+        res = core.tlc_check(module, cfg, **kw)
+    return res
+
+
 def from_sim(sims, first_id):
     out = []
     for i, beh in enumerate(sims):
@@ -148,7 +167,7 @@ def features(lines):
 
 
 def judge_gated(rep, behaviours, trace):
-    res = core.tlc_trace('Trace_Reader.tla', 'Trace_Reader.cfg', trace)
+    res = _retry(core.tlc_trace, 'Trace_Reader.tla', 'Trace_Reader.cfg', trace)
     by_id = {b['id']: b for b in behaviours}
     lines = {}
     for e in core.read_ndjson(trace):
@@ -172,6 +191,49 @@ def judge_gated(rep, behaviours, trace):
         rep.classify(sig, 'gated replay: first failing step: line %d action %s check %s' % (line, action, name),
                      {'kind': 'gated', 'behaviours': [b]})
     return res, feats, bad
+
+
+def _truncates_under_reader(b):
+    """C03 assumes no truncation while a committed reader is alive (a reader whose HW segment object was replaced by
+    Truncate fails with 'no segment to consume' - CommitLog.tla/C01 territory, reported to its owner)."""
+    alive = set()
+    for s in b['steps']:
+        if s['a'] == 'NewReader' and s.get('c'):
+            alive.add(s['r'])
+        elif s['a'] == 'Reopen':
+            alive.clear()
+        elif s['a'] == 'Truncate' and alive:
+            return True
+    return False
+
+
+def lockstep(rep, rng, seed, num):
+    """(a) sequential cases: CommitLog.tla behaviours with persistent committed/uncommitted readers, HW advances,
+    rolls, truncations and reopen, replayed lock-step by C01's driver and judged by Trace_CommitLog (P_Drain,
+    P_SetHW): reused, not duplicated."""
+    from checks import c01
+    sims = _retry(core.tlc_simulate, 'MC_CommitLog.tla', 'Sim_CommitLog.cfg', num, 12, seed + 31)
+    behaviours = [c01.decorate(b, rng, 500000 + i) for i, b in enumerate(sims) if len(b) > 1]
+    behaviours = [b for b in behaviours if any(s['a'] == 'Drain' for s in b['steps']) and not _truncates_under_reader(b)]
+    with core.scratch('c03a') as d:
+        trace = c01.execute(behaviours, d)
+        res = _retry(core.tlc_trace, 'Trace_CommitLog.tla', 'Trace_CommitLog.cfg', trace)
+    by_id = {b['id']: b for b in behaviours}
+    bad = {}
+    for kind, tid, line, action, name in res['fails']:
+        if action not in ('Drain', 'SetHW', 'NewReader'):
+            continue            # appends, truncations ... are judged by the C01 check
+        if kind == 'I':
+            rep.drift({'behaviour': tid, 'line': line, 'action': action, 'what': name, 'spec': 'CommitLog'})
+            continue
+        bad.setdefault(tid, []).append((line, action, name))
+    for tid, fl in bad.items():
+        fl.sort()
+        line, action, name = fl[0]
+        rep.classify('C03|%s|%s|lockstep' % (name, action),
+                     'lock-step replay (CommitLog.tla): first failing step: line %d action %s' % (line, action),
+                     {'kind': 'lockstep', 'behaviours': [by_id[tid]]})
+    return behaviours, res
 
 
 def stress_rounds(rng, n, msgs):
@@ -204,7 +266,7 @@ def judge_stress(rounds, trace):
             raise core.Inconclusive('stress round %s: reader %s neither waiting nor finished at the deadline' % (e['t'], e['r']))
         if e['a'] == 'AppendErr':
             raise core.Inconclusive('stress round %s: append failed: %s' % (e['t'], e['err']))
-    res = core.tlc_trace('Trace_ReaderEv.tla', 'Trace_ReaderEv.cfg', trace)
+    res = _retry(core.tlc_trace, 'Trace_ReaderEv.tla', 'Trace_ReaderEv.cfg', trace)
     bad = [(tid, line, action, name) for kind, tid, line, action, name in res['fails'] if kind == 'P']
     return res, bad, evs
 
@@ -212,7 +274,7 @@ def judge_stress(rounds, trace):
 def gated_campaign(rep, tier, seed, num, depth, extra=()):
     cfg = 'Sim_Reader.cfg' if tier == 'quick' else 'Sim_Reader_thorough.cfg'
     t0 = time.time()
-    sims = core.tlc_simulate('MC_Reader.tla', cfg, num, depth, seed)
+    sims = _retry(core.tlc_simulate, 'MC_Reader.tla', cfg, num, depth, seed)
     behaviours = from_sim(sims, 1) + list(extra)
     t1 = time.time()
     with core.scratch('c03') as d:
@@ -229,7 +291,14 @@ def run(rep, tier, seed, replay):
     if replay:
         obj = replay['replay']
         with core.scratch('c03') as d:
-            if obj.get('kind') == 'stress':
+            if obj.get('kind') == 'lockstep':
+                from checks import c01
+                trace = c01.execute(obj['behaviours'], d)
+                res = core.tlc_trace('Trace_CommitLog.tla', 'Trace_CommitLog.cfg', trace)
+                for kind, tid, line, action, name in res['fails']:
+                    if kind == 'P' and action in ('Drain', 'SetHW', 'NewReader'):
+                        rep.classify('C03|%s|%s|lockstep' % (name, action), 'lock-step replay line %d' % line, obj)
+            elif obj.get('kind') == 'stress':
                 trace = execute_stress(obj['rounds'], d, race=False)
                 res, bad, evs = judge_stress(obj['rounds'], trace)
                 for tid, line, action, name in bad:
@@ -242,7 +311,7 @@ def run(rep, tier, seed, replay):
         return
     thorough = tier == 'thorough'
     # 1. design checks: safety (exhaustive), liveness (fair readers, no state constraint)
-    res = core.tlc_check('MC_Reader.tla', 'MC_Reader_thorough.cfg' if thorough else 'MC_Reader.cfg',
+    res = _check('MC_Reader.tla', 'MC_Reader_thorough.cfg' if thorough else 'MC_Reader.cfg',
                          timeout=3000, coverage=thorough)
     rep.add_design('MC_Reader(safety)', res)
     if res['violated']:
@@ -250,20 +319,20 @@ def run(rep, tier, seed, replay):
                                 'violates C03 - not a verdict by itself, to be reproduced on the code' % res['violated'])
     if thorough and res.get('zero_cov'):
         raise core.Inconclusive('actions never taken in the design check: %s' % res['zero_cov'])
-    res = core.tlc_check('MC_Reader.tla', 'MC_Reader_live_thorough.cfg' if thorough else 'MC_Reader_live.cfg',
+    res = _check('MC_Reader.tla', 'MC_Reader_live_thorough.cfg' if thorough else 'MC_Reader_live.cfg',
                          timeout=3000, workers=min(core.NCPU, 8))
     rep.add_design('MC_Reader(liveness)', res)
     if res['violated']:
         raise core.Inconclusive('the liveness check of Reader.tla fails (%s)' % res['violated'])
     if thorough:
         # the unrepaired split (CAS first, list append later) as a seeded defect of the model: TLC must find it
-        res = core.tlc_check('MC_Reader.tla', 'MC_Reader_seeded.cfg', timeout=1200)
+        res = _check('MC_Reader.tla', 'MC_Reader_seeded.cfg', timeout=1200)
         rep.add_design('MC_Reader(seeded: non-atomic split)', res, expect_ok=False)
         rep.cov['seeded_model_defect_found'] = bool(res['violated'])
         if not res['violated']:
             raise core.Inconclusive('the seeded model defect (non-atomic split) was not found by TLC')
     # 2.-4. behaviours of the specification, replayed through the gates, judged by TLC
-    num = 600 if not thorough else 12000
+    num = 600 if not thorough else 8000
     depth = 60 if not thorough else 80
     behaviours, tr, feats, bad = gated_campaign(rep, tier, seed, num, depth, extra=_directed())
     rep.cov['traces_validated_against_impl'] = len(behaviours)
@@ -277,6 +346,11 @@ def run(rep, tier, seed, replay):
         for x in f:
             hist[x] = hist.get(x, 0) + 1
     rep.cov['race_windows_crossed'] = hist
+    # (a) sequential cases through C01's lock-step driver
+    lb, lres = lockstep(rep, rng, seed, 500 if not thorough else 6000)
+    rep.cov['lockstep_behaviours_with_readers'] = len(lb)
+    rep.cov['traces_validated_against_impl'] += len(lb)
+    rep.cov['trace_lines_validated'] += lres['validated']
     # 5. stress with real schedules (plain and with the race detector)
     n_rounds = 8 if not thorough else 60
     msgs = 250 if not thorough else 600
@@ -285,8 +359,15 @@ def run(rep, tier, seed, replay):
     with core.scratch('c03s') as d:
         for race in (False, True):
             rounds = stress_rounds(rng, n_rounds if not race else max(4, n_rounds // 2), msgs)
-            trace = execute_stress(rounds, d, race)
-            sres, sbad, evs = judge_stress(rounds, trace)
+            try:
+                trace = execute_stress(rounds, d, race)
+                sres, sbad, evs = judge_stress(rounds, trace)
+            except core.Inconclusive as e:
+                if not rep.violations:
+                    raise
+                # violations were already established through the gates: they stand
+                rep.cov['stress_note'] = str(e)[:400]
+                continue
             n_events += len(evs)
             for tid, line, action, name in sbad:
                 stress_bad.append({'race': race, 'round': rounds[tid - 1], 'line': line, 'action': action, 'check': name})
